@@ -171,9 +171,12 @@ pub fn run() -> i32 {
             ("custom type", "module M\n[@] custom C\n", "def"), ("type alias", "module M\n[@] typealias T = bool\n", "def"),
         ];
         // (attribute text, kind, arguments well-formed?)
-        let attrs: [(&str, &str, bool); 22] = [
+        let attrs: [(&str, &str, bool); 28] = [
             ("allow(Deprecated)", "allow", true), ("allow(All, BrokenDocLink)", "allow", true), ("allow(Nope)", "allow", false), ("allow()", "allow", false), ("allow", "allow", false),
             ("allow(DuplicateFile)", "allow", false), ("allow(deprecated)", "allow", false),
+            // every argument is validated, wherever it stands: a bad one after a good one (or after `All`) is still bad
+            ("allow(All, Nope)", "allow", false), ("allow(Deprecated, Nope)", "allow", false), ("allow(All, DuplicateFile)", "allow", false), ("allow(Nope, All)", "allow", false),
+            ("compress(Args, Bad)", "operation-only", false), ("slicedFormat(Args, Return, Foo)", "operation-only", false),
             ("deprecated", "deprecated", true), ("deprecated(\"reason\")", "deprecated", true), ("deprecated(\"a\", \"b\")", "deprecated", false),
             ("compress(Args)", "operation-only", true), ("compress(Args, Return)", "operation-only", true), ("compress", "operation-only", false), ("compress(Bad)", "operation-only", false), ("compress(args)", "operation-only", false),
             ("slicedFormat(Return)", "operation-only", true), ("slicedFormat(Foo)", "operation-only", false),
